@@ -13,9 +13,9 @@ facts about the step list, both decidable and both evaluated (a) on the model's 
 operation by the judge `judge-c07-trace`:
   * `oneVisibleTx steps`  : at most one transaction of the operation commits statements that change
                             the acknowledged state (all others only touch \Recent bookkeeping);
-  * `disciplined steps`   : cache files are written / deleted only for ids without a committed row,
-                            and a transaction that inserts a row commits only after the complete file
-                            is in the store.
+  * `disciplined steps`   : cache files are deleted only for ids without a committed row, written only
+                            for such ids or for rows that can be re-downloaded, and a transaction that
+                            inserts a row commits only after the complete file is in the store.
 That the model's step lists ARE the real ones is the trace correspondence (dialect `c07trace`).
 -/
 import GluonModel.Lemmas.Crash
@@ -138,56 +138,72 @@ theorem fail_append_recovered (inst : Nat) (hi : inst < 3) (s : St) (i : Nat) (h
 /-! ### every listed message can be fetched -/
 
 /-- **listed_is_fetchable** (generic). If every row was fetchable before (complete cache file with the
-    acknowledged literal, or re-downloadable), the operation's step list keeps the store discipline, and no
-    row has an id the operation treats as new, then after death at ANY boundary and restart every row is
-    fetchable with its exact literal. -/
-theorem listed_is_fetchable (steps : List Step) (s : St) (i : Nat)
-    (hdisc : disciplined steps = true) (hfresh : FreshNew s) (htx : s.tx = none) (hinv : AllFetchable s) :
+    acknowledged literal, or re-downloadable), the operation's step list keeps the store discipline, no row
+    has an id the operation treats as new, and the rows it re-downloads (`redl`) are re-downloadable, then
+    after death at ANY boundary - also inside `store.Set` - and restart every row is fetchable with its
+    exact literal. -/
+theorem listed_is_fetchable (steps : List Step) (redl : List MsgId) (s : St) (i : Nat)
+    (hdisc : disciplined steps redl = true) (hfresh : FreshNew s) (htx : s.tx = none)
+    (hredl : Redl s redl) (hinv : AllFetchable s) :
     AllFetchable (recover (crashAfter i steps s)) := by
   apply recover_fetchable
   apply crash_fetchable
-  exact run_sound _ {} s (rel_init s hfresh htx) hinv (disciplinedFrom_take steps {} i hdisc)
+  exact run_sound _ _ s (rel_init s redl hfresh htx hredl) hinv (disciplinedFrom_take steps _ i hdisc)
 
-/-- structural fact 2 holds for the step list of every modelled operation instance -/
-theorem modelled_disciplined : ∀ o ∈ modelled, disciplined (stepsOf! o) = true := by decide
+/-- structural fact 2 holds for the step list of every modelled operation instance (the re-download of a
+    lost cache file included: it writes the store for the id of an existing row, which `getLiteral` only
+    does for messages that are not recovered ones) -/
+theorem modelled_disciplined : ∀ o ∈ modelled, disciplined (stepsOf! o) (redlOf o.1) = true := by decide
 
 theorem listed_is_fetchable_ops (o : String × Nat) (ho : o ∈ modelled) (s : St) (i : Nat)
-    (hfresh : FreshNew s) (htx : s.tx = none) (hinv : AllFetchable s) :
+    (hfresh : FreshNew s) (htx : s.tx = none) (hredl : Redl s (redlOf o.1)) (hinv : AllFetchable s) :
     AllFetchable (recover (crashAfter i (stepsOf! o) s)) :=
-  listed_is_fetchable _ s i (modelled_disciplined o ho) hfresh htx hinv
+  listed_is_fetchable _ _ s i (modelled_disciplined o ho) hfresh htx hredl hinv
 
 /-- the same after an injected error at step `i` (state right after the rollback, and after a restart) -/
-theorem fail_listed_is_fetchable (steps : List Step) (s : St) (i : Nat)
-    (hdisc : disciplined steps = true) (hfresh : FreshNew s) (htx : s.tx = none) (hinv : AllFetchable s) :
+theorem fail_listed_is_fetchable (steps : List Step) (redl : List MsgId) (s : St) (i : Nat)
+    (hdisc : disciplined steps redl = true) (hfresh : FreshNew s) (htx : s.tx = none)
+    (hredl : Redl s redl) (hinv : AllFetchable s) :
     AllFetchable (failAt i steps [] s) ∧ AllFetchable (recover (failAt i steps [] s)) := by
   have h : AllFetchable (failAt i steps [] s) :=
-    crash_fetchable _ (run_sound _ {} s (rel_init s hfresh htx) hinv (disciplinedFrom_take steps {} i hdisc))
+    crash_fetchable _ (run_sound _ _ s (rel_init s redl hfresh htx hredl) hinv (disciplinedFrom_take steps _ i hdisc))
   exact ⟨h, recover_fetchable _ h⟩
 
 /-- a state with one acknowledged, re-downloadable message whose cache file is gone -/
 def lostCacheFile : St := { db := { rows := [{ id := .old 1, lit := litOf (.old 1) }] } }
 
-/-- the re-download of a lost cache file (`State.getLiteral`: `store.Set` on the id of an existing row)
-    does NOT keep the store discipline ... -/
-theorem redownload_not_disciplined : disciplined (stepsOf! ("redownload", 0)) = false := by decide
+/-- the re-download of a lost cache file (`State.getLiteral`), interrupted inside `store.Set` when the file
+    holds header and nonce only (6 micro-steps done; DESIGN section 9 #23): since /repo ad3c4e0 `store.Get`
+    reports the truncated file, so after restart the row is still fetchable (by another re-download); the
+    start-up keeps the partial file (it has a row), the next FETCH overwrites it. Exercised on the real
+    server by `vh oracle c07crash` (run redownload <inst> killnonce|killhalf|errhalf 5). -/
+theorem listed_is_fetchable_redownload :
+    Redl lostCacheFile (redlOf "redownload") ∧
+    (recover (crashAfter 6 (stepsOf! ("redownload", 0)) lostCacheFile)).store (.old 1) = some .partialF ∧
+    ∀ i, AllFetchable (recover (crashAfter i (stepsOf! ("redownload", 0)) lostCacheFile)) := by
+  have hr : Redl lostCacheFile (redlOf "redownload") := by
+    intro id hid r hr _
+    simp only [lostCacheFile, List.mem_singleton] at hr
+    subst hr
+    simp only [redlOf, if_true, List.mem_singleton] at hid
+    subst hid
+    exact ⟨rfl, rfl⟩
+  refine ⟨hr, by decide, fun i => ?_⟩
+  exact listed_is_fetchable_ops ("redownload", 0) (by decide) lostCacheFile i (fun _ => rfl) rfl hr (by decide)
 
-/-- ... and **listed_is_fetchable is FALSE for it**: the process dies inside `store.Set` when the file
-    holds header and nonce only (6 micro-steps done); after restart the row is there, the file is there,
-    `store.Get` returns empty bytes without an error, so FETCH serves an empty message instead of the
-    acknowledged literal or a re-download (DESIGN section 9 #23). Replayed on the real server by
-    `vh oracle c07crash` (run redownload 0 killnonce 5). The same state arises without any death when
-    the `Set` fails half-way (`failAt 7`, run redownload 0 errhalf 5). -/
-theorem listed_is_fetchable_redownload_counterexample :
-    AllFetchable lostCacheFile ∧ FreshNew lostCacheFile ∧
-    ¬ AllFetchable (recover (crashAfter 6 (stepsOf! ("redownload", 0)) lostCacheFile)) ∧
-    ¬ AllFetchable (failAt 6 (stepsOf! ("redownload", 0)) [] lostCacheFile) := by
-  refine ⟨by decide, fun k => rfl, ?_, ?_⟩
-  · intro h
-    have := h { id := .old 1, lit := litOf (.old 1) } (by decide)
-    revert this; decide
-  · intro h
-    have := h { id := .old 1, lit := litOf (.old 1) } (by decide)
-    revert this; decide
+/-- the store discipline is needed: writing the cache file of an existing row that can NOT be re-downloaded
+    (a recovered message) and dying inside the write leaves a listed message that cannot be fetched. The real
+    code never does this (`getLiteral` returns before the re-download for recovered messages:
+    `source_store_before_row`). -/
+theorem listed_is_fetchable_needs_discipline :
+    let s : St := { db := { rows := [{ id := .old 1, remote := false, lit := 7 }] },
+                    store := fun id => if id = .old 1 then some (.complete 7) else none }
+    AllFetchable s ∧ FreshNew s ∧ disciplined (setS (.old 1)) = false ∧
+    ¬ AllFetchable (recover (crashAfter 1 (setS (.old 1)) s)) := by
+  refine ⟨by decide, fun _ => rfl, by decide, ?_⟩
+  intro h
+  have := h { id := .old 1, remote := false, lit := 7 } (by decide)
+  revert this; decide
 
 /-! ### left-overs -/
 
@@ -235,14 +251,15 @@ theorem source_recovery_order :
   decide
 
 /-- the literal is stored before the row is created (APPEND, recovered message, connector-created
-    messages); a session's release deletes rows before files; the re-download writes the store only;
+    messages); a session's release deletes rows before files; the re-download checks for a recovered message before it
+    writes the store;
     `stateDBWrite` is two transactions, the second one for the state updates -/
 theorem source_store_before_row :
     before "store.SetUnchecked" "tx.CreateMessageAndAddToMailbox" (callsOf "State.actionCreateMessage") = true ∧
     before "store.SetUnchecked" "tx.CreateMessageAndAddToMailbox" (callsOf "State.actionCreateRecoveredMessage") = true ∧
     before "store.SetUnchecked" "tx.CreateMessages" (callsOf "user.applyMessagesCreated") = true ∧
     before "tx.DeleteMessages" "store.Delete" (callsOf "user.removeState") = true ∧
-    callsOf "State.getLiteral" = ["store.Get", "store.Set"] ∧
+    callsOf "State.getLiteral" = ["store.Get", "check.recovered", "store.Set"] ∧
     callsOf "Mailbox.Append" = ["call.AppendRegular", "call.actionCreateRecoveredMessage"] ∧
     callsOf "stateDBWrite" = ["db.Write", "db.Write", "call.QueueOrApplyStateUpdate"] := by
   decide
@@ -265,7 +282,7 @@ def sample : St :=
             rows := [{ id := .old 1, lit := litOf (.old 1) }, { id := .old 2, marked := true, lit := litOf (.old 2) }] },
     store := fun id => if id = .old 1 then some (.complete (litOf (.old 1)))
                        else if id = .old 2 then some (.complete (litOf (.old 2)))
-                       else if id = .old 7 then some (.partialF true) else none }
+                       else if id = .old 7 then some .partialF else none }
 
 example : sample.tx = none ∧ FreshNew sample ∧ AllFetchable sample := ⟨rfl, fun _ => rfl, by decide⟩
 
@@ -282,7 +299,7 @@ example : (recover sample).store (.old 7) = none ∧ (recover sample).store (.ol
     (recover sample).db.rows.length = 1 ∧ (recover sample).store (.old 1) = some (.complete (litOf (.old 1))) := by decide
 
 /-- death inside `store.Set` of APPEND (file partial, no row yet): recovery removes the file -/
-example : (crashAfter 11 (stepsOf! ("append", 0)) sample).store (.new 1) = some (.partialF true) ∧
+example : (crashAfter 11 (stepsOf! ("append", 0)) sample).store (.new 1) = some .partialF ∧
     (recover (crashAfter 11 (stepsOf! ("append", 0)) sample)).store (.new 1) = none := by decide
 
 example : HandlerInvisible (handlerOf "ccreate" 3) ∧ ¬ HandlerInvisible (handlerOf "append" 9) := by decide
